@@ -83,6 +83,23 @@ def kinds(rootname):
         ("absolute component after 2100 one-byte names", [b"q"] * 2100 + [S + b"/outside/decoy"], "outside"),
         ("absolute component after 17 names of 255 bytes", [b"m" * 255] * 17 + [S + b"/outside/decoy"], "outside"),
         # added after seeded change C13-5 (a second, unscreened spelling of `path`): the whole path as ONE byte string
+        # added after seeded change C13-14 (a missing file retried under its NFC / NFD / NFKC spellings): components made of
+        # compatibility characters that NFKC turns into `..` or `/` are ordinary names here; the decoy waits where the respelt
+        # path would point
+        ("U+2025 TWO DOT LEADER then decoy", ["\u2025".encode(), b"decoy"], "beside"),
+        ("two U+2024 ONE DOT LEADER then decoy", ["\u2024\u2024".encode(), b"decoy"], "beside"),
+        ("two U+FF0E FULLWIDTH FULL STOP, twice, then decoy", ["\uff0e\uff0e".encode(), "\uff0e\uff0e".encode(), b"decoy"], "above"),
+        ("U+2025 U+FF0F decoy in one component", ["\u2025\uff0fdecoy".encode()], "beside"),
+        ("d1 then U+2025 U+2025 then decoy", [b"d1", "\u2025".encode(), "\u2025".encode(), b"decoy"], "beside-d1"),
+        ("decomposed name of the decoy beside (e + U+0301)", [b"..", "de\u0301coy".encode()], ("beside", "d\u00e9coy".encode())),
+        # added after seeded change C13-13 (`path.utf-8` read and preferred for disk access, checked only for its length): the
+        # entry keeps a valid `path` of as many plain components; the escape is spelled in a sibling key other clients write
+        ("ALTKEY path.utf-8: ..", [b"..", b"decoy"], "beside"),
+        ("ALTKEY path.utf-8: absolute component", [S + b"/outside/decoy"], "outside"),
+        ("ALTKEY path.utf-8: separator inside a component", [b"../decoy"], "beside"),
+        ("ALTKEY path.utf8: ..", [b"..", b"decoy"], "beside"),
+        ("ALTKEY utf-8 path: .. twice", [b"..", b"..", b"decoy"], "above"),
+        ("ALTKEY name.utf-8: ..", [b"..", b"decoy"], "beside"),
         ("path as a joined byte string: ../decoy", b"../decoy", "beside"),
         ("path as a joined byte string: d1/../../decoy", b"d1/../../decoy", "beside-d1"),
         ("path as a joined byte string: absolute", S + b"/outside/decoy", "outside"),
@@ -113,7 +130,13 @@ def hostile_case(r, kind, pos, mode, rootname=b"root", pieces_without_hostile=Fa
         datas[pos] = r.randbytes(r.randint(1, 9))
     files = [([b"f%d" % i], datas[i]) for i in range(n)]
     w = vfy.World(rootname, p, files, True, r.random() < 0.5)
-    w.info[b"files"][pos][b"path"] = comps if isinstance(comps, bytes) else list(comps)   # pieces and md5sum stay the decoy's
+    if tag.startswith("ALTKEY "):
+        key = tag.split(" ", 1)[1].split(":")[0].encode()
+        key = {b"utf-8 path": b"path.utf-8"}.get(key, key)
+        w.info[b"files"][pos][key] = list(comps)
+        w.info[b"files"][pos][b"path"] = [b"plain%d" % i for i in range(len(comps))]          # valid, absent inside the root
+    else:
+        w.info[b"files"][pos][b"path"] = comps if isinstance(comps, bytes) else list(comps)   # pieces and md5sum stay the decoy's
     if pieces_without_hostile:
         blob = b"".join(d for i, d in enumerate(datas) if i != pos)
         w.info[b"pieces"] = vfy.sha1s(blob, p)
@@ -151,6 +174,27 @@ def hostile_case(r, kind, pos, mode, rootname=b"root", pieces_without_hostile=Fa
     if where is None:
         vfy.tree_set(tree, rootloc + [b"d1"], {})
     return vfy.mk_case("hostile path: %s, file %d of %d" % (tag, pos + 1, n), w, mode, tree, arg, inp)
+
+
+def root_is_a_file_cases(r):
+    """The content root is a regular file, the first entry has the EMPTY path (it names the root itself) and the entries after
+    it are single names whose bytes lie NEXT TO the root: every one of them is outside the root, which is not even a directory
+    (added after seeded change C13-15: a path buffer reused across entries, where `set_file_name` on the root replaced the
+    root's own last component)."""
+    out = []
+    for mode in ("content", "base", "default", "stdin"):
+        p = r.choice([4, 7, 64])
+        datas = [r.randbytes(r.randint(1, 3 * p)) for _ in range(r.choice([2, 3, 4]))]
+        files = [([b"f%d" % i], d) for i, d in enumerate(datas)]
+        w = vfy.World(b"root", p, files, True, r.random() < 0.5)
+        w.info[b"files"][0][b"path"] = []
+        w.content = datas[0]                                   # the root itself is a file holding the first entry's bytes
+        tree, arg, inp = vfy.place(w, mode, r, True)
+        rootloc = {"content": [b"the content"], "base": [b"bd", b"root"], "default": [b"sub", b"root"], "stdin": [b"root"]}[mode]
+        for i in range(1, len(datas)):
+            vfy.tree_set(tree, rootloc[:-1] + [b"f%d" % i], datas[i])
+        out.append(vfy.mk_case("hostile shape: root is a file, empty path first, siblings beside the root", w, mode, tree, arg, inp))
+    return out
 
 
 def hostile_names(r):
@@ -215,6 +259,7 @@ def generate(ctx):
             if c is not None:
                 cases.append(c)
         cases += hostile_names(r)
+        cases += root_is_a_file_cases(r)
         for _ in range(12):                                          # ordinary torrents in between
             w = vfy.random_world(r, multi=True)
             mode = r.choice(["content", "base", "default", "stdin"])
